@@ -1,0 +1,24 @@
+//go:build verif
+
+package coordinator
+
+// Contracts for /verif (gvc). Comment-only file; see /verif/DESIGN.md §5 C11.
+
+//@ prop C11
+
+// The shard key of a row is built from the shard-key description of ITS measurement: the cached description is
+// re-resolved whenever the shard group or the measurement differs from the previous row's.
+//@ func (*PointsWriter).updateShardGroupAndShardKey
+//@   ghost refreshed bool = false
+//@   call len with di.ShardKey.ShardKey
+//@     set refreshed = true
+//@   call (*MeasurementInfo).GetShardKey
+//@     frame nothing
+//@   call (*Row).UnmarshalShardKeyByTag
+//@     requires (!sameSg || !wh.sameMst) ==> refreshed
+//@   call (*Row).UnmarshalShardKeyByTagOp
+//@     requires (!sameSg || !wh.sameMst) ==> refreshed
+//@   call (*Row).UnmarshalShardKeyByField
+//@     requires (!sameSg || !wh.sameMst) ==> refreshed
+//@   call (*Row).UnmarshalShardKeyByDimOrTag
+//@     requires (!sameSg || !wh.sameMst) ==> refreshed
